@@ -26,8 +26,8 @@ import traceback
 VERIF = os.path.dirname(os.path.dirname(os.path.abspath(__file__)))
 SRC = os.path.abspath(os.environ.get("PYMODES_SRC", "/repo/src"))
 NPROC = int(os.environ.get("VERIF_NPROC", "16"))
-# a second, smaller run of the same legs in a child interpreter started with PYTHONOPTIMIZE=1 (python -O: assert statements and
-# `if __debug__` blocks vanish); the child samples every fourth enumerated case and a quarter of the generated ones
+# a second, smaller run of the same legs in a child interpreter started with PYTHONOPTIMIZE=2 (python -OO: assert statements and
+# `if __debug__` blocks vanish, docstrings are None); the child samples every fourth enumerated case and a quarter of the generated ones
 OPT_CHILD = os.environ.get("VERIF_OPT_CHILD") == "1"
 OPT_ON = os.environ.get("VERIF_OPT", "1") != "0"
 MAX_SAMPLES = 8
@@ -430,12 +430,31 @@ def write_replay(prop, legname, failure, seed, tier):
     return path
 
 
+def _import_failure(modname):
+    """Import the check module (and with it the package under test).  Returns (module, None), or (None, description) when the import fails
+    inside the package under test itself - e.g. in an interpreter started with -OO, where docstrings are None."""
+    import importlib
+    try:
+        setup_path()
+        return importlib.import_module(modname), None
+    except Exception as e:  # noqa
+        tb = traceback.extract_tb(e.__traceback__)
+        if tb and os.path.abspath(tb[-1].filename).startswith(SRC):
+            return None, "the package fails to import%s: %s: %s (%s line %d)" % (
+                " in an interpreter started with python -OO" if sys.flags.optimize else "", type(e).__name__, e, os.path.relpath(tb[-1].filename, SRC), tb[-1].lineno)
+        raise
+
+
 def run_check(modname, tier, seed, only_legs=None):
     t0 = time.time()
-    import importlib
 
-    setup_path()
-    mod = importlib.import_module(modname)
+    mod, broken = _import_failure(modname)
+    if broken:
+        prop = "C" + modname[-2:]
+        path = write_replay(prop, "__import__", {"case": {"__import__": modname}, "problem": broken}, seed, tier)
+        print("  failing leg __import__: %s" % broken)
+        print("VIOLATION property=%s replay=%s" % (prop, path))
+        return 1
     prop = mod.PROPERTY
     tasks = []
     for leg in mod.LEGS:
@@ -472,8 +491,8 @@ def run_check(modname, tier, seed, only_legs=None):
     viol_paths = []
     if failures:
         name, fl = failures[0]
-        leg = [l for l in mod.LEGS if l.name == name][0]
-        if leg.enum is not None and not fl.get("interpreter"):
+        leg = ([l for l in mod.LEGS if l.name == name] or [None])[0]
+        if leg is not None and leg.enum is not None and not fl.get("interpreter"):
             fl = dict(fl)
             fl["case"] = generic_shrink(leg, fl["case"], [])
         viol_paths.append(write_replay(prop, name, fl, seed, tier))
@@ -518,7 +537,7 @@ def _opt_child_start(mod, tier, seed, only_legs):
         return None
     d = tempfile.mkdtemp(prefix="pmsopt-", dir="/var/tmp")
     # the child also runs under another (fixed, seed-derived) string-hash seed: set/dict iteration order over strings differs from the parent's
-    env = dict(os.environ, PYTHONOPTIMIZE="1", PYTHONHASHSEED=str(1 + (seed * 7919 + 12345) % 4000000000), VERIF_OPT_CHILD="1", VERIF_EVIDENCE_DIR=d, VERIF_SEED=str(seed),
+    env = dict(os.environ, PYTHONOPTIMIZE="2", PYTHONHASHSEED=str(1 + (seed * 7919 + 12345) % 4000000000), VERIF_OPT_CHILD="1", VERIF_EVIDENCE_DIR=d, VERIF_SEED=str(seed),
                VERIF_NPROC=str(max(2, NPROC // 4)))
     proc = subprocess.Popen([os.path.join(VERIF, "check"), mod.PROPERTY, "--tier", tier, "--legs", ",".join(names)],
                             env=env, stdout=subprocess.PIPE, stderr=subprocess.PIPE, text=True)
@@ -537,14 +556,14 @@ def _opt_child_finish(child, failures):
             path = [ln.split("replay=", 1)[1].strip() for ln in out.splitlines() if ln.startswith("VIOLATION ")][0]
             with open(path) as f:
                 body = json.load(f)
-            fl = {"case": body["case"], "problem": "[in an interpreter started with python -O] " + body["problem"], "interpreter": "-O",
+            fl = {"case": body["case"], "problem": "[in an interpreter started with python -OO] " + body["problem"], "interpreter": "-O",
                   "hashseed": body.get("hashseed")}
             if body.get("recipe"):
                 fl["recipe"] = body["recipe"]
             failures.append((body["leg"], fl))
         elif proc.returncode != 0:
             raise HarnessError("the python -O child run failed (exit %r):\n%s" % (proc.returncode, err[-3000:]))
-        info = {"flags": "PYTHONOPTIMIZE=1", "legs": names, "sampling": "every fourth enumerated case, a quarter of the generated cases"}
+        info = {"flags": "PYTHONOPTIMIZE=2 (python -OO: no assert statements, no docstrings), another hash seed", "legs": names, "sampling": "every fourth enumerated case, a quarter of the generated cases"}
         try:
             with open([os.path.join(d, x) for x in os.listdir(d) if x.endswith(".json") and "-" not in x][0]) as f:
                 cev = json.load(f)
@@ -670,16 +689,23 @@ def build_evidence(mod, per_leg, tier, seed, wall, nviol, known_info):
 def run_replay(modname, path):
     import importlib
 
-    setup_path()
-    mod = importlib.import_module(modname)
     with open(path) as f:
         body = json.load(f)
     if body.get("interpreter") == "-O" and not sys.flags.optimize:
+        prop_ = body.get("property") or ("C" + modname[-2:])
         import subprocess
         # found under python -O: replay it there
-        r = subprocess.run([os.path.join(VERIF, "check"), mod.PROPERTY, "--replay", os.path.abspath(path)],
-                           env=dict(os.environ, PYTHONOPTIMIZE="1", PYTHONHASHSEED=str(body.get("hashseed") or "0"), VERIF_OPT_CHILD="1"))
+        r = subprocess.run([os.path.join(VERIF, "check"), prop_, "--replay", os.path.abspath(path)],
+                           env=dict(os.environ, PYTHONOPTIMIZE="2", PYTHONHASHSEED=str(body.get("hashseed") or "0"), VERIF_OPT_CHILD="1"))
         return r.returncode
+    mod, broken = _import_failure(modname)
+    if broken or body.get("leg") == "__import__":
+        if broken:
+            print("replay %s: %s" % (path, broken))
+            print("VIOLATION property=%s replay=%s" % (body.get("property"), path))
+            return 1
+        print("replay %s leg=__import__: property held (the package imports)" % path)
+        return 0
     leg = [l for l in mod.LEGS if l.name == body["leg"]][0]
     problem = None
     for hostile in (False, True):  # a stored case is replayed under both ambient process states
